@@ -25,8 +25,10 @@ func PrepareNode(properties *Properties, kinds ...Kind) *Node {
 
 func NewNode(id ID, properties *Properties, kinds ...Kind) *Node {
 	return &Node{
-		ID:         id,
-		Kinds:      kinds,
+		ID: id,
+		// A caller may pass an existing slice through the variadic parameter. The node must own its kinds:
+		// AddKinds and DeleteKinds edit the slice in place and would otherwise change every other holder of it.
+		Kinds:      Kinds(kinds).Copy(),
 		Properties: properties,
 	}
 }
